@@ -176,6 +176,47 @@ fn sig_hash(s: &str) -> String {
     format!("{:016x}", h)
 }
 
+/// Runs a command with a timeout, draining stdout/stderr while it runs (a child blocked on a
+/// full pipe must not look like a hang). Returns (exit status or None on timeout, stdout, stderr).
+fn run_with_timeout(mut cmd: Command, timeout: Duration) -> (Option<std::process::ExitStatus>, String, String) {
+    let mut child = match cmd.stdout(Stdio::piped()).stderr(Stdio::piped()).spawn() {
+        Ok(c) => c,
+        Err(_) => return (None, String::new(), String::new()),
+    };
+    let mut so = child.stdout.take().unwrap();
+    let mut se = child.stderr.take().unwrap();
+    let t1 = std::thread::spawn(move || {
+        use std::io::Read;
+        let mut s = String::new();
+        let mut buf = Vec::new();
+        let _ = so.read_to_end(&mut buf);
+        s.push_str(&String::from_utf8_lossy(&buf));
+        s
+    });
+    let t2 = std::thread::spawn(move || {
+        use std::io::Read;
+        let mut buf = Vec::new();
+        let _ = se.read_to_end(&mut buf);
+        String::from_utf8_lossy(&buf).to_string()
+    });
+    let start = Instant::now();
+    let status = loop {
+        match child.try_wait() {
+            Ok(Some(st)) => break Some(st),
+            Ok(None) => {
+                if start.elapsed() > timeout {
+                    let _ = child.kill();
+                    let _ = child.wait();
+                    break None;
+                }
+                std::thread::sleep(Duration::from_millis(2));
+            }
+            Err(_) => break None,
+        }
+    };
+    (status, t1.join().unwrap_or_default(), t2.join().unwrap_or_default())
+}
+
 /// Runs a trace in a fresh process and returns the slot creation map of the run (empty on death).
 fn replay_slot_origin(path: &Path, timeout: Duration) -> Vec<usize> {
     replay_result(path, timeout).map(|r| r.slot_origin).unwrap_or_default()
@@ -183,29 +224,11 @@ fn replay_slot_origin(path: &Path, timeout: Duration) -> Vec<usize> {
 
 /// Runs a trace in a fresh process and returns its full result (None if the process died).
 fn replay_result(path: &Path, timeout: Duration) -> Option<RunResult> {
-    let out = Command::new(exe()).arg("replay").arg(path).stdout(Stdio::piped()).stderr(Stdio::null()).spawn();
-    let Ok(mut child) = out else { return None };
-    let start = Instant::now();
-    loop {
-        match child.try_wait() {
-            Ok(Some(_)) => break,
-            Ok(None) => {
-                if start.elapsed() > timeout {
-                    let _ = child.kill();
-                    let _ = child.wait();
-                    return None;
-                }
-                std::thread::sleep(Duration::from_millis(2));
-            }
-            Err(_) => return None,
-        }
-    }
-    let mut text = String::new();
-    if let Some(mut o) = child.stdout.take() {
-        use std::io::Read;
-        let _ = o.read_to_string(&mut text);
-    }
-    for l in text.lines() {
+    let mut cmd = Command::new(exe());
+    cmd.arg("replay").arg(path);
+    let (status, out, _) = run_with_timeout(cmd, timeout);
+    status?;
+    for l in out.lines() {
         if let Some(s) = l.strip_prefix("END ") {
             if let Ok(r) = serde_json::from_str::<RunResult>(s) {
                 return Some(r);
@@ -217,52 +240,26 @@ fn replay_result(path: &Path, timeout: Duration) -> Option<RunResult> {
 
 /// Runs a trace file in a fresh process. Returns (signature of violation / death class, outcome hash).
 fn replay_subprocess(path: &Path, timeout: Duration) -> (Option<String>, u64) {
-    let mut child = match Command::new(exe()).arg("replay").arg(path).stdout(Stdio::piped()).stderr(Stdio::piped()).spawn() {
-        Ok(c) => c,
-        Err(_) => return (None, 0),
-    };
-    let start = Instant::now();
-    loop {
-        match child.try_wait() {
-            Ok(Some(status)) => {
-                let mut out = String::new();
-                if let Some(mut o) = child.stdout.take() {
-                    use std::io::Read;
-                    let _ = o.read_to_string(&mut out);
-                }
-                let mut errs = String::new();
-                if let Some(mut e) = child.stderr.take() {
-                    use std::io::Read;
-                    let _ = e.read_to_string(&mut errs);
-                }
-                for l in out.lines() {
-                    if let Some(s) = l.strip_prefix("END ") {
-                        if let Ok(r) = serde_json::from_str::<RunResult>(s) {
-                            return (r.violation.map(|v| v.signature), r.outcome_hash);
-                        }
-                    }
-                }
-                // no END line: the process died
-                use std::os::unix::process::ExitStatusExt;
-                let what = match (status.code(), status.signal()) {
-                    (_, Some(sig)) => format!("signal={sig}"),
-                    (Some(c), _) => format!("exit={c}"),
-                    _ => "unknown".to_string(),
-                };
-                let over = errs.lines().any(|l| l.starts_with("OVERSIZE-ALLOC") || l.contains("memory allocation of"));
-                return (Some(format!("process-death/{what}{}", if over { "/allocation-failure" } else { "" })), 0);
+    let mut cmd = Command::new(exe());
+    cmd.arg("replay").arg(path);
+    let (status, out, errs) = run_with_timeout(cmd, timeout);
+    let Some(status) = status else { return (Some("hang".to_string()), 0) };
+    for l in out.lines() {
+        if let Some(s) = l.strip_prefix("END ") {
+            if let Ok(r) = serde_json::from_str::<RunResult>(s) {
+                return (r.violation.map(|v| v.signature), r.outcome_hash);
             }
-            Ok(None) => {
-                if start.elapsed() > timeout {
-                    let _ = child.kill();
-                    let _ = child.wait();
-                    return (Some("hang".to_string()), 0);
-                }
-                std::thread::sleep(Duration::from_millis(2));
-            }
-            Err(_) => return (None, 0),
         }
     }
+    // no END line: the process died
+    use std::os::unix::process::ExitStatusExt;
+    let what = match (status.code(), status.signal()) {
+        (_, Some(sig)) => format!("signal={sig}"),
+        (Some(c), _) => format!("exit={c}"),
+        _ => "unknown".to_string(),
+    };
+    let over = errs.lines().any(|l| l.starts_with("OVERSIZE-ALLOC") || l.contains("memory allocation of"));
+    (Some(format!("process-death/{what}{}", if over { "/allocation-failure" } else { "" })), 0)
 }
 
 fn death_signature(prop: &str, class: &str, trace: &Trace) -> String {
